@@ -95,3 +95,13 @@ End Sched.
 (* the base class all commands share is exactly the modelled text and carries no state of its own (see C01) *)
 Theorem C09_command_base_is_the_modelled_text : Gen.Misc.command_base_unknown = [].
 Proof. vm_compute. reflexivity. Qed.
+
+(* "Repeating a marshalling call with equal inputs yields equal bytes": none of the REGENERATED builder / decoder bodies changes, in place,
+   an object that belongs to its caller — a local bound to (part of) a parameter (`x = p`, `x = p[k]`, `x = p.get(k, ..)`, `for x in p[k]`,
+   or what another function of the package returned for it) and then extended with `+=`, stored into, appended to or used as an
+   out-buffer of the codec.  (A bytes value is rebound by `+=`, a bytearray or list is extended in place: what the decoder of one command
+   returned and the caller passes on to the builder of another would change under the first command's feet.)  Decided by the
+   translator's flow-insensitive scan on every run; the documented out-buffer parameters are listed in py_unknown, not here. *)
+From PS Require Gen.PyFuncs.
+Theorem C09_py_builders_leave_the_callers_objects_alone : Gen.PyFuncs.py_caller_mutations = [].
+Proof. vm_compute. reflexivity. Qed.
